@@ -496,6 +496,7 @@ type c17RealCase struct {
 	// HashFetcher response timer (package var dfltTimeout) and a slow answer to the K-th GetHashes request:
 	// HashMode "hold": the answer enters the mailbox directly in front of the HashFetcher's timeout SyncStop;
 	// "after": directly behind it; "delay": answered HashDelayMs after the request
+	AncFlood    int    `json:"ancflood"` // first session: the anchor list stops above genesis and the peer keeps answering GetSyncAncestor with an ancestor below the lowest anchor, every TimeoutMs/3, this many times
 	Stale2      bool   `json:"stale2"` // second session: a poisoned copy with the PREVIOUS session's sequence number precedes every sequenced response
 	HfTimeoutMs int    `json:"hftimeoutms"`
 	HashK       int    `json:"hashk"`
@@ -512,6 +513,7 @@ type c17Add struct {
 
 type c17Session struct {
 	Clean    string   `json:"clean"` // "" or what was left behind after the session ended
+	DurMs    int64    `json:"durms"` // SyncStart to final notification
 	HC       int      `json:"hc"`    // highest common block of the local and the served chain when the session started
 	Injected int      `json:"injected"`
 	Started  bool     `json:"started"`
@@ -662,7 +664,19 @@ func c17RunSession(t *testing.T, c *c17RealCase, local, served *chain.StubBlockC
 			}
 		default:
 			if isOtherActorRequest(msg) {
-				if ga, ok := msg.(*message.GetSyncAncestor); ok && c.LieAnc != -1 {
+				if _, ok := msg.(*message.GetAnchors); ok && c.AncFlood > 0 && !c17SecondSession && local.Best >= 2 {
+					// an anchor list that does not reach genesis (as on a chain higher than 496 blocks)
+					rsp := message.GetAnchorsRsp{Hashes: [][]byte{local.Hashes[local.Best], local.Hashes[local.Best-1]}, LastNo: uint64(local.Best - 1)}
+					ss.stubRequester.sendReply(StubRequestResult{rsp, nil})
+				} else if ga, ok := msg.(*message.GetSyncAncestor); ok && c.AncFlood > 0 && !c17SecondSession && local.Best >= 2 {
+					go func() {
+						for i := 0; i < c.AncFlood; i++ {
+							time.Sleep(time.Duration(c.TimeoutMs) * time.Millisecond / 3)
+							ss.stubRequester.TellTo(message.SyncerSvc, &message.GetSyncAncestorRsp{Seq: ga.Seq,
+								Ancestor: &types.BlockInfo{Hash: local.Hashes[0], No: 0}}) // below the lowest anchor: ignored by the finder
+						}
+					}()
+				} else if ga, ok := msg.(*message.GetSyncAncestor); ok && c.LieAnc != -1 {
 					var anc *types.BlockInfo
 					if c.LieAnc >= 0 && c.LieAnc <= served.Best {
 						anc = &types.BlockInfo{Hash: served.Hashes[c.LieAnc], No: uint64(c.LieAnc)}
@@ -706,6 +720,7 @@ func c17RunSession(t *testing.T, c *c17RealCase, local, served *chain.StubBlockC
 			}
 		}
 	}()
+	t0 := time.Now()
 	ss.stubRequester.TellTo(message.SyncerSvc, &message.SyncStart{PeerID: targetPeerID, TargetNo: uint64(target), NotifyC: notify})
 	stop := ""
 	select {
@@ -721,6 +736,7 @@ func c17RunSession(t *testing.T, c *c17RealCase, local, served *chain.StubBlockC
 		stop = "hang"
 		c17Hangs++
 	}
+	ses.DurMs = time.Since(t0).Milliseconds()
 	close(quit)
 	if stop != "hang" {
 		<-hubDone // (a hub stuck inside Syncer.Reset never comes back)
